@@ -1,4 +1,4 @@
-* history generator, thorough tier: as LFRicSched_dump.cfg plus `acc loop`
+\* history generator, thorough tier: as LFRicSched_dump.cfg plus `acc loop`
 \* without the independent clause
 CONSTANTS MaxLen = 0
  MaxLen2 = 0
